@@ -26,8 +26,9 @@
 (*     statement only says uncovered ones must be returned).                               *)
 (*  A6 the root difference is returned by the code as the path [nil]; it is read as the    *)
 (*     empty path.                                                                         *)
-(*  A7 Match: fingerprint member null against an absent target member, a target array      *)
-(*     longer than the fingerprint array and int-vs-equal-float are OPEN.                  *)
+(*  A7 Match: a target array longer than the fingerprint array, fingerprint null elements   *)
+(*     beyond the end of the target array and int-vs-equal-float are OPEN.  A null          *)
+(*     fingerprint MEMBER against an absent target member must match (documented).          *)
 EXTENDS Integers, Sequences, FiniteSets, TLC
 
 CONSTANTS MaxNodes,    \* size bound of the base tree
@@ -40,6 +41,10 @@ Null      == [t |-> "null"]
 Absent    == [t |-> "absent"]          \* result of looking up a missing member; never part of a tree
 Bo(x)     == [t |-> "bool", v |-> x]
 In(n)     == [t |-> "int", v |-> n]
+\* an integer beyond TLC's 32 bits: base "p53" = 2^53, "max" = MaxInt64 - 3, "min" = MinInt64, plus off in 0..3.
+\* The harness expands it to the int64 / gen.Int; equality of two such leaves is record equality (exact). In traces
+\* integers beyond 2^30 arrive as exact decimal digit records (absval "dec"), again compared by record equality.
+BigIn(base, off) == [t |-> "int", big |-> base, off |-> off]
 Fl(n, k)  == [t |-> "flt", q |-> <<n, k>>]     \* n / 2^k, k minimal
 St(s)     == [t |-> "str", v |-> s]
 Tm(n)     == [t |-> "time", sec |-> n]
@@ -87,8 +92,9 @@ Put(x, p, n) == IF p = <<>> THEN n
 (* ground truth: the set of differing locations *)
 SmallNum(x) == IF x.t = "int" THEN "v" \in DOMAIN x ELSE "q" \in DOMAIN x
 \* x int, y float
-NumCross(x, y) == IF SmallNum(x) /\ SmallNum(y)
-                  THEN (IF y.q[2] = 0 /\ y.q[1] = x.v THEN "may" ELSE "must")
+\* a float with q is at most 2^30 in magnitude, an int without v is beyond 2^30: those two cannot be equal
+NumCross(x, y) == IF SmallNum(y)
+                  THEN (IF SmallNum(x) /\ y.q[2] = 0 /\ y.q[1] = x.v THEN "may" ELSE "must")
                   ELSE "may"                                                      \* A1
 
 LeafCls(x, y) ==
@@ -119,8 +125,8 @@ Eq(x, y, loose) ==
    ELSE IF x.t = "obj" /\ y.t = "obj" THEN
         /\ \A j \in 1..Len(x.k) : IF HasKey(y, x.k[j]) THEN Eq(x.v[j], Member(y, x.k[j]), loose) ELSE x.v[j] = Null
         /\ \A j \in 1..Len(y.k) : HasKey(x, y.k[j]) \/ y.v[j] = Null
-   ELSE IF x.t = "int" /\ y.t = "flt" THEN loose /\ y.q = <<x.v, 0>>
-   ELSE IF x.t = "flt" /\ y.t = "int" THEN loose /\ x.q = <<y.v, 0>>
+   ELSE IF x.t = "int" /\ y.t = "flt" THEN loose /\ "v" \in DOMAIN x /\ y.q = <<x.v, 0>>
+   ELSE IF x.t = "flt" /\ y.t = "int" THEN loose /\ "v" \in DOMAIN y /\ x.q = <<y.v, 0>>
    ELSE x = y
 
 -----------------------------------------------------------------------------
@@ -149,9 +155,14 @@ CompareBad(cmp, D) == IF cmp = <<>> THEN D # {} ELSE NormP(cmp[1]) \notin D
 And3(s) == IF "F" \in s THEN "F" ELSE IF "O" \in s THEN "O" ELSE "T"
 RECURSIVE Match3(_, _)
 Match3(f, t) ==
-   IF t.t = "absent" THEN (IF f.t = "null" THEN "O" ELSE "F")                       \* A7
+   \* alt.Match documents: "An explicit nil in the fingerprint will match either a nil in the target or a missing
+   \* value in the target" - an obligation for object members
+   IF t.t = "absent" THEN (IF f.t = "null" THEN "T" ELSE "F")
    ELSE IF f.t = "arr" THEN
-        IF t.t # "arr" \/ Len(f.v) > Len(t.v) THEN "F"
+        IF t.t # "arr" THEN "F"
+        ELSE IF Len(f.v) > Len(t.v)
+        THEN (IF \A j \in (Len(t.v) + 1)..Len(f.v) : f.v[j].t = "null"               \* A7: null elements beyond the target's end
+              THEN And3({Match3(f.v[j], t.v[j]) : j \in 1..Len(t.v)} \cup {"O"}) ELSE "F")
         ELSE And3({Match3(f.v[j], t.v[j]) : j \in 1..Len(f.v)} \cup (IF Len(t.v) > Len(f.v) THEN {"O"} ELSE {}))
    ELSE IF f.t = "obj" THEN
         IF t.t # "obj" THEN "F"
@@ -239,7 +250,9 @@ VARIABLES a, b, np, touched, phase
 vars == <<a, b, np, touched, phase>>
 
 KeySeq == <<"a", "b">>
-BuildVals == IF Rich THEN {Null, In(1), St("x"), Bo(TRUE), Fl(3, 1), Tm(0), EArr, EObj} ELSE {Null, In(1), EArr, EObj}
+BuildVals == IF Rich THEN {Null, In(1), St("x"), Bo(TRUE), Fl(3, 1), Tm(0), EArr, EObj,
+                           BigIn("p53", 0), BigIn("p53", 1), BigIn("max", 2), BigIn("min", 0)}
+             ELSE {Null, In(1), EArr, EObj}
 
 \* insert key k (not present) keeping the KeySeq order
 AddMember(x, k, n) ==
@@ -261,6 +274,10 @@ Grown(x, vals) ==
 Changes(x) ==
    IF x.t = "null" THEN {<<"other-kind", In(1)>>, <<"other-kind", St("x")>>, <<"subtree", EArr>>, <<"subtree", Obj(<<"a">>, <<Null>>)>>}
    ELSE IF x.t = "bool" THEN {<<"same-kind", Bo(~x.v)>>, <<"other-kind", Null>>}
+   ELSE IF x.t = "int" /\ "big" \in DOMAIN x THEN
+        {<<"same-kind", BigIn(x.big, x.off + d)>> : d \in {dd \in {1, 2} : x.off + dd <= 3}}
+        \cup {<<"same-kind", BigIn(x.big, x.off - 1)>> : d \in {dd \in {1} : x.off >= 1}}
+        \cup {<<"other-kind", Null>>, <<"same-kind", In(1)>>}
    ELSE IF x.t = "int" THEN {<<"same-kind", In(x.v + 1)>>, <<"int-float", Fl(x.v, 0)>>, <<"other-kind", Fl(2 * x.v + 1, 1)>>,
                              <<"other-kind", St("x")>>, <<"other-kind", Null>>, <<"other-kind", Bo(TRUE)>>,
                              <<"other-kind", Tm(0)>>, <<"subtree", Arr(<<In(x.v)>>)>>}
@@ -277,7 +294,7 @@ Changes(x) ==
         \cup {<<IF Member(x, k) = Null THEN "null-absent" ELSE "member-delete", DelMember(x, k)>> : k \in Range(x.k)}
         \cup {<<"subtree", Null>>, <<"subtree", Arr(<<In(1)>>)>>, <<"subtree", EArr>>}
 
-Init == /\ a \in {EArr, EObj, In(1), Null} /\ b = Null /\ np = 0 /\ touched = {} /\ phase = "build"
+Init == /\ a \in {EArr, EObj, In(1), Null} \cup (IF Rich THEN {BigIn("p53", 0), BigIn("max", 3), BigIn("min", 1)} ELSE {}) /\ b = Null /\ np = 0 /\ touched = {} /\ phase = "build"
 
 Grow == /\ phase = "build" /\ Size(a) < MaxNodes
         /\ \E p \in Locs(a, <<>>) : \E n \in Grown(At(a, p), BuildVals) : a' = Put(a, p, n)
@@ -333,6 +350,6 @@ BugOK == phase = "pert" =>
            \A igs \in IgnSets(a, b) : Missed(TruthNow, RefDiff(a, b, igs, <<>>, TRUE), igs) = {}
 MatchLaws == phase = "pert" =>
            /\ Match3(a, a) = "T"
-           /\ (Match3(a, b) # "F" /\ Match3(b, a) # "F") => Musts(TruthNow) = {}
+           /\ (Match3(a, b) = "T" /\ Match3(b, a) = "T") => Musts(TruthNow) = {}
            /\ TruthNow = {} => Match3(a, b) # "F"
 =============================================================================
